@@ -145,6 +145,48 @@ def handleCal (toks : List String) : Option String :=
                  | some f => plainDateWithCal cal f p ov
                  | none => Out.err .assert)
       pure r.render))
+  | ["cal_dtwith", cal, y, m, d, era, ey, yr, mo, c, dd, ov] => do
+    let cal ← calId? cal; let y ← int? y; let m ← int? m; let d ← int? d
+    let p ← calPartial? [era, ey, yr, mo, c, dd]
+    let ov ← (if ov == "-" then some none else (Overflow.ofName? ov).map some)
+    some (renderOut (do
+      let iso ← isoOf y m d
+      let p ← p
+      let r ← (if cal = .iso8601 then
+                 plainDateWith iso ⟨p.year, p.month, p.monthCode, p.day, p.era.isSome, p.eraYear⟩ ov
+               else match fields cal iso with
+                 | some f => plainDateWithCal cal f p ov
+                 | none => Out.err .assert)
+      let dt ← IsoDateTime.new r ⟨12, 30, 0, 0, 0, 0⟩
+      pure s!"{dt.date.render} 12 30"))
+  | ["cal_ymwith", cal, y, m, d, era, ey, yr, mo, c, ov] => do
+    let cal ← calId? cal; let y ← int? y; let m ← int? m; let d ← int? d
+    let p ← calPartial? [era, ey, yr, mo, c, "-"]
+    let ov ← (if ov == "-" then some none else (Overflow.ofName? ov).map some)
+    some (renderOut (do
+      let iso ← isoOf y m d
+      let p ← p
+      match fields cal iso with
+      | none => Out.err .assert
+      | some f => do
+        let ref ← dateToYearMonthCal cal f
+        match fields cal ref with
+        | none => Out.err .assert
+        | some g => do
+          let r ← yearMonthFromPartialCal cal (mergeFieldsCal g p) (ov.getD .constrain)
+          pure (String.ofList (Fmt.date r))))
+  | ["cal_ymfields", cal, y, m, d] => do
+    let cal ← calId? cal; let y ← int? y; let m ← int? m; let d ← int? d
+    some (renderOut (do
+      let iso ← isoOf y m d
+      match fields cal iso with
+      | none => Out.err .assert
+      | some f => do
+        let ref ← dateToYearMonthCal cal f
+        match fields cal ref with
+        | none => Out.err .assert
+        | some g =>
+          pure s!"{g.era.getD "-"} {optStr toString g.eraYear} {g.year} {g.month} {g.monthCode.render} {g.daysInMonth} {g.daysInYear} {g.monthsInYear} {if g.inLeapYear then 1 else 0}"))
   | ["cal_withid_spec", _, y, m, d] => do
     -- the law, for every calendar: a date updated with its own day is the same date
     let y ← int? y; let m ← int? m; let d ← int? d
